@@ -107,6 +107,49 @@ pub fn run(out: &mut dyn Write, rng: &mut Rng, n: usize, mutation_seeds: usize) 
             }
         }
     }
+    // stream 1c: one side with 16..24 highly mobile men (must be rejected above 16; if ever accepted, generating
+    // its moves overflows the 18-entry move list)
+    for n in 15..=24usize {
+        for (me, other) in [("N", "k"), ("n", "K"), ("Q", "k"), ("q", "K")] {
+            for turn in ["w", "b"] {
+                // men on alternating squares of ranks 3..6 so that most are mobile; the kings in opposite corners
+                let mut cells: Vec<String> = vec![String::new(); 64];
+                let mut placed = 0;
+                for sq in (16..48).chain(8..16).chain(48..56) {
+                    if placed < n && (sq + sq / 8) % 2 == 0 {
+                        cells[sq] = me.to_string();
+                        placed += 1;
+                    }
+                }
+                let upper = me.chars().next().unwrap().is_ascii_uppercase();
+                cells[if upper { 0 } else { 63 }] = if upper { "K".into() } else { "k".into() };
+                cells[if upper { 63 } else { 0 }] = other.to_string();
+                let mut s = String::new();
+                for r in (0..8).rev() {
+                    let mut missing = 0;
+                    for f in 0..8 {
+                        let c = &cells[r * 8 + f];
+                        if c.is_empty() {
+                            missing += 1;
+                        } else {
+                            if missing > 0 {
+                                s.push_str(&missing.to_string());
+                                missing = 0;
+                            }
+                            s.push_str(c);
+                        }
+                    }
+                    if missing > 0 {
+                        s.push_str(&missing.to_string());
+                    }
+                    if r != 0 {
+                        s.push('/');
+                    }
+                }
+                parse_line(out, format!("{s} {turn} - - 0 1").as_bytes(), &mut hist);
+            }
+        }
+    }
     // stream 2: every single-byte edit of a few seeds
     for k in 0..mutation_seeds {
         let seed = valid[(k * 7919) % valid.len()].clone().into_bytes();
